@@ -21,16 +21,21 @@ Faults == {"none", "bad-greeting", "unknown-module", "bad-args", "early-close"}
 (* next to a writable module whose PATH is a string prefix of this module's path; below a writable module's   *)
 (* directory; above a writable module's directory.  Only the module's OWN flag decides (Gate).                *)
 Layouts == {"alone", "sibling", "prefix", "nested", "parent"}
+(* how the client spells its argument lines: as a stock client does; WITHOUT the "--server" line (a hand-written *)
+(* client: no "--sender" still means the daemon receives); with long option names; with repeated lines.        *)
+(* The gate does not depend on the spelling.                                                                   *)
+ArgForms == {"normal", "no-server", "long", "dup"}
 
-VARIABLES kind, mode, upload, sub, flags, transport, fault, layout,   \* the scenario
+VARIABLES kind, mode, upload, sub, flags, transport, fault, layout, argform,   \* the scenario
           pc,          \* "greet" | "module" | "acl" | "args" | "gate" | "session" | "closed"
           modver,      \* version counter of the module's file system (any write increments it)
           reply,       \* "none" | "ok" | "error"
           serving      \* the daemon process keeps serving other connections
-vars == <<kind, mode, upload, sub, flags, transport, fault, layout, pc, modver, reply, serving>>
+vars == <<kind, mode, upload, sub, flags, transport, fault, layout, argform, pc, modver, reply, serving>>
 
 Init == /\ kind \in ModKinds /\ mode \in Modes /\ upload \in Uploads /\ sub \in Subs /\ flags \in FlagSets
         /\ transport \in Transports /\ fault \in Faults /\ layout \in Layouts
+        /\ argform \in ArgForms /\ (argform # "normal" => layout = "alone")
         /\ pc = "greet" /\ modver = 0 /\ reply = "none" /\ serving = TRUE
 
 Fail(next) == /\ reply' = "error" /\ pc' = "closed" /\ UNCHANGED <<modver, serving>>
@@ -38,29 +43,29 @@ Fail(next) == /\ reply' = "error" /\ pc' = "closed" /\ UNCHANGED <<modver, servi
 Greet == /\ pc = "greet"
          /\ IF fault = "bad-greeting" \/ fault = "early-close" THEN Fail("closed")
             ELSE pc' = "module" /\ UNCHANGED <<reply, modver, serving>>
-         /\ UNCHANGED <<kind, mode, upload, sub, flags, transport, fault, layout>>
+         /\ UNCHANGED <<kind, mode, upload, sub, flags, transport, fault, layout, argform>>
 SelectModule == /\ pc = "module"
                 /\ IF fault = "unknown-module" THEN Fail("closed")
                    ELSE pc' = "acl" /\ UNCHANGED <<reply, modver, serving>>
-                /\ UNCHANGED <<kind, mode, upload, sub, flags, transport, fault, layout>>
+                /\ UNCHANGED <<kind, mode, upload, sub, flags, transport, fault, layout, argform>>
 CheckAcl == /\ pc = "acl" /\ pc' = "args" /\ reply' = "ok"          \* (the decision itself is Acl.tla's)
-            /\ UNCHANGED <<kind, mode, upload, sub, flags, transport, fault, layout, modver, serving>>
+            /\ UNCHANGED <<kind, mode, upload, sub, flags, transport, fault, layout, argform, modver, serving>>
 ParseArgs == /\ pc = "args"
              /\ IF fault = "bad-args" THEN Fail("closed")
                 ELSE pc' = "gate" /\ UNCHANGED <<reply, modver, serving>>
-             /\ UNCHANGED <<kind, mode, upload, sub, flags, transport, fault, layout>>
+             /\ UNCHANGED <<kind, mode, upload, sub, flags, transport, fault, layout, argform>>
 (* rsyncd.go handleConnReceiver: receiver mode is refused unless the module is *)
 (* writable - BEFORE anything (MkdirAll of the module or of the requested      *)
 (* sub-directory, the delete pass, the file list) is touched                   *)
 Gate == /\ pc = "gate"
         /\ IF mode = "recv" /\ ~Writable(kind) THEN Fail("closed")
            ELSE pc' = "session" /\ UNCHANGED <<reply, modver, serving>>
-        /\ UNCHANGED <<kind, mode, upload, sub, flags, transport, fault, layout>>
+        /\ UNCHANGED <<kind, mode, upload, sub, flags, transport, fault, layout, argform>>
 (* the transfer itself: only a writable module in receive mode may change *)
 Session == /\ pc = "session"
            /\ modver' = IF mode = "recv" /\ "n" \notin flags THEN modver + 1 ELSE modver
            /\ pc' = "closed"
-           /\ UNCHANGED <<kind, mode, upload, sub, flags, transport, fault, layout, reply, serving>>
+           /\ UNCHANGED <<kind, mode, upload, sub, flags, transport, fault, layout, argform, reply, serving>>
 Closed == pc = "closed" /\ UNCHANGED vars
 Next == Greet \/ SelectModule \/ CheckAcl \/ ParseArgs \/ Gate \/ Session \/ Closed
 Spec == Init /\ [][Next]_vars /\ WF_vars(Next)
@@ -74,7 +79,7 @@ EverySessionEnds == <>(pc = "closed")
 
 OutFile == IOEnv.VERIF_OUT
 Emit == (pc = "greet" /\ mode = "recv" /\ fault = "none") =>
-  CSVWrite("%1$s", <<ToJson([kind |-> kind, upload |-> upload, sub |-> sub, flags |-> flags, transport |-> transport, layout |-> layout])>>, OutFile)
+  CSVWrite("%1$s", <<ToJson([kind |-> kind, upload |-> upload, sub |-> sub, flags |-> flags, transport |-> transport, layout |-> layout, argform |-> argform])>>, OutFile)
 GenNext == FALSE /\ UNCHANGED vars
 GenSpec == Init /\ [][GenNext]_vars
 =============================================================================
